@@ -112,6 +112,8 @@ def main():
         v, n = predict(c_, rng, q_)
         res['predictions_checked'] += n; res['violations'] += v; res['configs'] += 1
         dist['corpus'] = dist.get('corpus', 0) + 1
+        if a.mode == 'check':
+            objs.append(q_)          # the corpus objects go through the Coq helicity model too
     while tried < nn and (a.mode == 'check' or (time.time() - t0 < a.budget and not res['violations'])):
         tried += 1
         try:
